@@ -137,6 +137,11 @@ class Check:
             if ok and len(self.samples) < 12:
                 sample = {"obligation": key, "paths": o.total, "contexts": sorted(o.contexts)[:3],
                           "at": o.ln, "derivation": (o.ok_samples[0]["detail"] if o.ok_samples else "entailed by the path constraints (Fourier-Motzkin)")}
+            if not ok and getattr(o, "clean_failed", 0) > 0:
+                # the obligation fails on a path that no unmodelled callee had touched before: nothing the analysis left
+                # out can repair it
+                self.violation(key, "%s: %s at %s (%s)" % (prop_rule, (o.samples[0]["detail"] if o.samples else "undischarged"), o.ln, o.fn),
+                               {"rule": prop_rule, "kind": o.kind}, hard=True)
             if not ok and any(str(x.get("detail", "")).startswith("unmodelled callee of a panicking class") for x in o.samples):
                 # a call into a class of callee that can panic is a finding in its own right, however incomplete the rest
                 self.violation(key, "%s: %s at %s (%s)" % (prop_rule, o.samples[0]["detail"], o.ln, o.fn), {"rule": prop_rule, "kind": o.kind}, hard=True)
